@@ -347,6 +347,7 @@ func (f *TF) And(a, b *Term) *Term {
 	}
 	return f.bin(OpAnd, a, b)
 }
+
 // asField recognises zext(x) * 2^k (k may be 0): the bits of x placed at position k of a wider zero word.
 func asField(t *Term) (inner *Term, shift int, ok bool) {
 	if t.op == OpZExt {
